@@ -256,6 +256,9 @@ pub fn run_ladder_case(kvs: &[Kv]) -> Result<u64, String> {
 }
 
 pub fn replay(case: &Value) -> Result<String, String> {
+    if let Some(r) = super::seqread::replay(case) {
+        return r;
+    }
     if case["gapsv"].as_bool() == Some(true) {
         return super::c10::run_gaps_versions(case["n"].as_u64().unwrap() as usize, case["variant"].as_u64().unwrap() as usize, case["depth"].as_u64().unwrap() as usize, 1).map(|n| format!("{} ranges agree", n));
     }
@@ -546,5 +549,7 @@ pub fn plan(tier: Tier) -> Plan {
             }
         }));
     }
+    p.rule.push_str(super::seqread::RULE);
+    super::seqread::add_units(&mut p, super::seqread::Class::Stream, if tier.thorough() { 5 } else { 4 });
     p
 }
